@@ -660,7 +660,8 @@ class Circuit:
                 pass
         for i in sorted(self.__internal_modes):
             if mode >= i:
-                mode += 1
+                # Not an in-place update, the provided value may be mutable
+                mode = mode + 1
         return mode
 
     def _add_empty_mode(self, circuit_spec: list, mode: int) -> list:
